@@ -36,6 +36,12 @@ def tasks(tier, seed):
     from . import c12, c04
     for i, t in enumerate(c12.UNUSED + c04.EXTRA):
         out.append({"family": "OPTS", "id": families.text_id(t), "text": t, "opts": {"backend": None, "remove_unused": True, "orders": i < 4}})
+    # a model quantity called like the step argument: either generation refuses the model or the emitted Euler step still is
+    # states + dt*rhs with dt the ARGUMENT (dt = 0 returns the input)
+    for role, t in (("intermediate", "parameters(tau=4.0)\nstates(x=1.0, y=2.0)\ndt = 1/tau\ndx_dt = -x*dt + y\ndy_dt = x - y\n"),
+                    ("parameter", "parameters(dt=0.25)\nstates(x=1.0, y=2.0)\ndx_dt = -x*dt + y\ndy_dt = x - y\n"),
+                    ("state", "parameters(a=0.25)\nstates(x=1.0, dt=2.0)\ndx_dt = -x*a + dt\nddt_dt = x - dt\n")):
+        out.append({"family": "RESERVED", "id": f"dt:{role}", "text": t, "opts": {"backend": None, "may_refuse": True}})
     return out + witness_tasks(PROP)
 
 
@@ -44,6 +50,14 @@ def work(task):
     m, ode = checks.load_all(prog, task["text"])
     if ode is None:
         return prog.result()
+    if task.get("opts", {}).get("may_refuse"):
+        from .. import pipeline
+        try:
+            pipeline.gen_py(ode, schemes=["explicit_euler"])
+        except Exception as e:
+            prog.fact("refused", True, "", "")
+            prog.notes.append(f"generation refused the model: {type(e).__name__}")
+            return prog.result()
     b = task.get("opts", {}).get("backend")
     ru = task.get("opts", {}).get("remove_unused", False)
     for backend in ([b] if b else BACKENDS):
